@@ -161,6 +161,19 @@ def run_impl(cases, tier):
 
     with ThreadPoolExecutor(vf.NCPU) as ex:
         obs = list(ex.map(one, cases))
+    # A content-dependent defect is deterministic.  Output that differs from what the modelled
+    # pipeline predicts is re-run once, alone: delivery races under load (lines lost at session
+    # shutdown) are C02's subject and must not be reported against C01.
+    delim = vf.consts()["message_delimiter"]["i"]
+    _state["reruns"] = 0
+    for i, (c, o) in enumerate(zip(cases, obs)):
+        want = py_model(c["maxlen"], bytes.fromhex(c["content"]), delim)
+        if o["rc"] != 0 or strip_warn(c, bytes.fromhex(o["out"])) != want:
+            o2 = one(c)
+            _state["reruns"] += 1
+            if o2["rc"] == 0 and strip_warn(c, bytes.fromhex(o2["out"])) == want:
+                o2["first_attempt_differed"] = True
+                obs[i] = o2
     env.stop_all()
     for c in cases:
         c.pop("_path", None)
@@ -192,14 +205,15 @@ def judge(cases, obs, tier):
             terms.append("(%s, %s, %s, %s, %s)" % (vf.cq_nat(c["maxlen"]), cuts, vf.cq_bytes(c["suffix"].encode()),
                                                    vf.cq_bytes(content), vf.cq_bytes(strip_warn(c, got))))
             idx.append(i)
-    fails, errs = vf.coq_eval_sharded("From DT Require Import Lib.Bytes Model.C01_Cat.", terms, "cat_agree", per_shard=40)
+    fails, errs = vf.coq_eval_sharded("From DT Require Import Lib.Bytes Model.C01_Cat.", terms, "cat_agree", per_shard=40, case_type="cat_case")
     errors += errs
     for f in fails:
         model[idx[f]] = "Coq model dcat_bytes differs from the implementation's stdout"
     _state["model_checked"] = len(idx)
     _state["delim"] = delim
     return {"oracle": oracle, "model": model, "errors": errors,
-            "notes": ["%d of %d cases also evaluated by the Coq model (literal budget %d bytes)" % (len(idx), len(cases), budget)]}
+            "notes": ["%d case(s) re-run alone because the first output differed from the modelled pipeline" % _state.get("reruns", 0),
+                      "%d of %d cases also evaluated by the Coq model (literal budget %d bytes)" % (len(idx), len(cases), budget)]}
 
 
 def _literal_cost(b):
